@@ -29,6 +29,7 @@ type genState struct {
 	nEnum   int
 	nAlias  int
 	used    map[string]bool // type names used per pkg: "pkg.Name"
+	chain   bool            // newAlias must declare the alias on top of an existing one (if any is visible)
 	nested  bool            // some model package lives in a directory nested in a controller package
 }
 
@@ -88,8 +89,15 @@ func Generate(seed uint64, profile string) *Project {
 	if profile == "order" {
 		nTypes = r.Range(3, 7)
 		if r.Chance(1, 2) {
+			g.newAlias() // a base alias, (often) one declared on top of it ...
+			g.chain = r.Chance(1, 2)
 			g.newAlias()
-			g.newAlias() // a base alias and (often) one declared on top of it
+			g.chain = false
+			if r.Chance(1, 2) {
+				g.chain = true // ... and a third that is certainly declared on the latest one it may name
+				g.newAlias()
+				g.chain = false
+			}
 		}
 	}
 	for i := 0; i < nTypes; i++ {
@@ -255,6 +263,35 @@ func Generate(seed uint64, profile string) *Project {
 		}
 	}
 
+	// (swarm, own stream) with generateEnumValidator gleece registers a validator "<snake name>_enum" per enum:
+	// string-enum parameters and struct fields without another validator may name it
+	if er := Stream(seed, "projgen/enum-validator/"+profile, 0); p.ExpEnumVal {
+		tag := func(t TypeRef) string {
+			if t.Kind != "enum" || t.Prim != "string" || t.Slice || t.Map || !strings.HasPrefix(t.Name, "Enum") {
+				return ""
+			}
+			return "enum_" + strings.TrimPrefix(t.Name, "Enum") + "_enum" // strcase.ToSnake("Enum7") + "_enum"
+		}
+		for ci := range p.Controllers {
+			for mi := range p.Controllers[ci].Methods {
+				for pi := range p.Controllers[ci].Methods[mi].Params {
+					prm := &p.Controllers[ci].Methods[mi].Params[pi]
+					if v := tag(prm.Type); v != "" && prm.Validate == "" && prm.Loc != "body" && er.Chance(3, 4) {
+						prm.Validate = v
+					}
+				}
+			}
+		}
+		for si := range p.Structs {
+			for fi := range p.Structs[si].Fields {
+				f := &p.Structs[si].Fields[fi]
+				if v := tag(f.Type); v != "" && f.Validate == "" && !f.Type.Ptr && er.Chance(3, 4) {
+					f.Validate = v
+				}
+			}
+		}
+	}
+
 	// (swarm, order profile, own stream) a controller declared in a MODEL package: whether it is part of the API
 	// depends on the globs alone (a package that is only loaded on demand, for its types, contributes none)
 	if or := Stream(seed, "projgen/outside-controller/"+profile, 0); profile == "order" && len(g.mdlPkgs) > 0 && or.Chance(1, 3) {
@@ -265,6 +302,36 @@ func Generate(seed uint64, profile string) *Project {
 	}
 
 	g.fixOverlaps()
+
+	// (swarm, own stream) two controllers of one package declaring a method of the SAME name: legal as long as at
+	// most one of the two is documented (operation ids must be unique in the spec), so the later one is hidden
+	if sr := Stream(seed, "projgen/same-method-name/"+profile, 0); sr.Chance(1, 3) {
+	pairs:
+		for i := range p.Controllers {
+			for j := i + 1; j < len(p.Controllers); j++ {
+				a, b := &p.Controllers[i], &p.Controllers[j]
+				if a.Pkg != b.Pkg || len(a.Methods) == 0 || len(b.Methods) == 0 || a.Name == "CtlX" || b.Name == "CtlX" {
+					continue
+				}
+				name := Pick(sr, a.Methods).Name
+				clash := false
+				for _, m := range b.Methods {
+					clash = clash || m.Name == name
+				}
+				if clash {
+					continue
+				}
+				mi := sr.Intn(len(b.Methods))
+				for k, m := range b.Methods {
+					if m.Hidden {
+						mi = k // prefer one that is hidden already
+					}
+				}
+				b.Methods[mi].Name, b.Methods[mi].Hidden = name, true
+				break pairs
+			}
+		}
+	}
 
 	// enforce only if ground truth says every route is secured
 	allSecured := true
@@ -384,7 +451,8 @@ func (g *genState) newEnum() TypeRef {
 	e := Enum{Name: fmt.Sprintf("Enum%d", g.nEnum), Pkg: pkg, File: g.typeFile(pkg)}
 	if g.r.Chance(2, 3) {
 		e.Prim = "string"
-		pool := []string{"alpha", "beta", "gamma", "delta", "x-1", "Z"}
+		// members with characters that HTML-escaping template helpers would mangle are legal constants too
+		pool := []string{"alpha", "beta", "gamma", "delta", "x-1", "Z", "R&D", "a<b"}
 		Shuffle(g.r, pool)
 		for _, v := range pool[:g.r.Range(2, 4)] {
 			e.Values = append(e.Values, fmt.Sprintf("%q", v))
@@ -406,15 +474,26 @@ func (g *genState) newEnum() TypeRef {
 func (g *genState) newAlias() TypeRef {
 	g.nAlias++
 	pkg := g.typePkg()
+	if g.chain && len(g.p.Aliases) > 0 {
+		pkg = g.p.Aliases[len(g.p.Aliases)-1].Pkg // where the latest alias is certainly visible
+	}
 	a := Alias{Name: fmt.Sprintf("Alias%d", g.nAlias), Pkg: pkg, File: g.typeFile(pkg), Prim: Pick(g.r, []string{"string", "int", "int64", "float64", "bool", "uint16"})}
-	if g.profile == "order" && g.r.Chance(1, 2) {
+	if g.profile == "order" && (g.r.Chance(1, 2) || g.chain) {
 		// an alias declared on top of another alias (of the same package, or of a model package a controller
 		// package may import)
+		// (any earlier alias may be the base, also one that is itself declared on another: chains of depth >= 2)
+		var bases []Alias
 		for _, b := range g.p.Aliases {
 			if b.Pkg == pkg || (!isMdl(pkg) && isMdl(b.Pkg)) {
-				a.OfPkg, a.OfName, a.Prim = b.Pkg, b.Name, b.Prim
-				break
+				bases = append(bases, b)
 			}
+		}
+		if len(bases) > 0 {
+			b := bases[len(bases)-1]
+			if g.r.Chance(1, 3) {
+				b = Pick(g.r, bases)
+			}
+			a.OfPkg, a.OfName, a.Prim = b.Pkg, b.Name, b.Prim
 		}
 	}
 	g.p.Aliases = append(g.p.Aliases, a)
@@ -793,6 +872,9 @@ func (g *genState) method(c *Controller, idx int, file string) Method {
 		case len(aliasOfAlias) > 0 && r.Chance(1, 3):
 			// an alias declared on top of another alias is only legal in models and results: make it reachable
 			m.RetType = Pick(r, aliasOfAlias)
+			if r.Chance(1, 2) {
+				m.RetType = aliasOfAlias[len(aliasOfAlias)-1] // the latest declared one ends the longest chain
+			}
 		case k == 0:
 			m.RetType = TypeRef{Kind: "prim", Prim: Pick(r, []string{"string", "int", "bool", "float64"})}
 			if r.Chance(1, 4) {
